@@ -321,7 +321,7 @@ func TestVerifC12(t *testing.T) {
 	}
 	defer sysutil.UseCgroupsV2.Store(false)
 
-	n := h.N(8000, 60000)
+	n := h.N(5000, 60000)
 	for idx := 0; idx < n; idx++ {
 		r := h.Begin(idx)
 		if r == nil {
@@ -504,6 +504,36 @@ func TestVerifC12(t *testing.T) {
 						h.Tag("malformed:duplicate")
 					}
 				}
+			}
+			// the arrangement the theorems ask for (ParentFirst): in the order the updaters are listed no dir comes before
+			// its parent - a parent may share a level with its children when it is listed first (the bottom-up sweep
+			// walks a level backwards); recomputed from the final levels, whatever the malformed stream did to them
+			{
+				pos := map[int]int{}
+				k := 0
+				for _, l := range levels {
+					for _, i := range l {
+						if _, seen := pos[i]; !seen {
+							pos[i] = k
+						}
+						k++
+					}
+				}
+				parentFirst := true
+				for c, p := range parent {
+					if p < 0 {
+						continue
+					}
+					pc, okc := pos[c]
+					pp, okp := pos[p]
+					if okc && okp && pp > pc {
+						parentFirst = false
+					}
+				}
+				if parentFirst && !ordered {
+					h.Tag("arrangement:parent-first-in-its-childrens-level")
+				}
+				ordered = parentFirst
 			}
 			expired := r.Chance(1, 4)
 			e.Config.ResourceForceUpdateSeconds = 60
